@@ -318,6 +318,10 @@ func execC12(c c12Case) vkit.Result {
 	if W < 1 {
 		W = 1
 	}
+	if c.Conc != nil {
+		// one cache per concurrent worker plus one for a worker that arrives later
+		W = min(max(c.Conc.Goroutines, 2), 16) + 1
+	}
 	sut, err := fxNewSUT(fxMainYAML, texts[0], W, 1)
 	if err != nil {
 		res.Violate("harness/load", "cannot load generated config: %v\n%s", err, texts[0])
@@ -450,26 +454,26 @@ func execC12(c c12Case) vkit.Result {
 	}
 
 	checkGauge := func(step int, live []c12Obs) {
-			// hook-free cross-check: the unique_dynsampler_count gauge
-			g, has := sut.gauge("unique_dynsampler_count")
-			distinct := map[any]bool{}
-			defsSeen := map[string]bool{}
-			positions := map[string]bool{}
-			for _, o := range live {
-				distinct[o.ptr] = true
-				defsSeen[o.dest+"\x00"+o.def.canon()] = true
-				positions[o.dest+"\x00"+o.path] = true
+		// hook-free cross-check: the unique_dynsampler_count gauge
+		g, has := sut.gauge("unique_dynsampler_count")
+		distinct := map[any]bool{}
+		defsSeen := map[string]bool{}
+		positions := map[string]bool{}
+		for _, o := range live {
+			distinct[o.ptr] = true
+			defsSeen[o.dest+"\x00"+o.def.canon()] = true
+			positions[o.dest+"\x00"+o.path] = true
+		}
+		if !has {
+			violate("C12/gauge/absent", "step %d: unique_dynsampler_count never reported", step)
+		} else {
+			if int(g) != len(distinct) {
+				violate("C12/gauge/differs-from-instances-observed", "step %d: unique_dynsampler_count=%v but %d distinct instances are in use", step, g, len(distinct))
 			}
-			if !has {
-				violate("C12/gauge/absent", "step %d: unique_dynsampler_count never reported", step)
-			} else {
-				if int(g) != len(distinct) {
-					violate("C12/gauge/differs-from-instances-observed", "step %d: unique_dynsampler_count=%v but %d distinct instances are in use", step, g, len(distinct))
-				}
-				if !ptrViolation && (int(g) < len(defsSeen) || int(g) > len(positions)) {
-					violate("C12/gauge/outside-oracle-range", "step %d: unique_dynsampler_count=%v, the definitions in use need between %d and %d", step, g, len(defsSeen), len(positions))
-				}
+			if !ptrViolation && (int(g) < len(defsSeen) || int(g) > len(positions)) {
+				violate("C12/gauge/outside-oracle-range", "step %d: unique_dynsampler_count=%v, the definitions in use need between %d and %d", step, g, len(defsSeen), len(positions))
 			}
+		}
 	}
 
 	if c.Conc != nil {
@@ -524,17 +528,18 @@ func execC12(c c12Case) vkit.Result {
 
 func TestC12(t *testing.T) {
 	vkit.Run(t, vkit.Spec[c12Case]{
-		ID: "C12",
-		Rule: "rapid-generated rules files (1-3 versions; destinations prod/staging/__default__/a look-alike name; top-level and rule-downstream samplers of all five dynsampler-backed types drawn from a small pool that differs in 0-2 tuning parameters, the rate, the field set or the type), validated by refinery's rules validator and loaded through config.NewConfig from files; histories of lazy creation by 1-4 workers (the collector's per-worker cache logic) and real config reloads. After every step the identity of the dynsampler-go instance behind every cached sampler (verif hook) is compared pairwise. Non-trivial: two workers hold a sampler for the same destination, or two definitions in one destination differ in exactly one parameter and both are instantiated. Distinct = distinct case JSON.",
+		ID:   "C12",
+		Rule: "rapid-generated rules files (1-3 versions; destinations prod/staging/__default__/a look-alike name; top-level and rule-downstream samplers of all five dynsampler-backed types drawn from a small pool that differs in 0-2 tuning parameters, the rate, the field set or the type), validated by refinery's rules validator and loaded through config.NewConfig from files; histories of lazy creation by 1-4 workers (the collector's per-worker cache logic) and real config reloads. After every step the identity of the dynsampler-go instance behind every cached sampler (verif hook) is compared pairwise. About 3 in 10 cases run the concurrent sub-mode instead: 2/4/8 workers released by one barrier create the samplers of 1-3 destinations at the same moment on a fresh factory, 30 (thorough 60) repetitions per case, most of them with a Metrics double that holds the first creator inside metrics registration until the others are done or stuck; the same pairwise identity oracle (plus a worker arriving later, plus the gauge) is applied after each repetition. Non-trivial: two workers hold a sampler for the same destination, or two definitions in one destination differ in exactly one parameter and both are instantiated. Distinct = distinct case JSON.",
 		Assumptions: []string{
 			"identity of the dynsampler-go instance == identity of the rate-tracking state (the Sampler wrappers only hold configuration and the key builder)",
 			"the per-worker cache in the harness mirrors collect.CollectorWorker.datasetSamplers; reload = ClearDynsamplers then every worker clears its cache (collect.reloadConfigs), executed atomically",
 			"definitions whose FieldList differs only in order are treated as identical (refinery documents and pins this)",
 			"identical definitions in two rules of one destination may or may not share state (statement allows both)",
 			"rules files are validated by config.Metadata.ValidateRules and then loaded with --no-validate (the loader would re-parse its metadata on every load)",
-			"creation is sequential; concurrent creation is not explored here",
+			"concurrent sub-mode: verdicts come from observed instance identity only; which interleavings occur is up to the scheduler (measured: conc_* counters and conc/ classes) except for the one the gate forces (another worker runs while the first creator is inside metrics registration)",
 		},
-		Gen:  genC12,
-		Exec: execC12,
+		Gen:   genC12,
+		Exec:  execC12,
+		Extra: c12ConcExtra,
 	})
 }
